@@ -558,9 +558,9 @@ func (s *UDPSessionRelay) relayServerConnToNatConnGeneric(ctx context.Context, u
 			_ = uplink.natConn.SetReadDeadline(conn.ALongTimeAgo)
 		}
 
-		s.putQueuedPacket(queuedPacket)
 		packetsSent++
 		payloadBytesSent += uint64(queuedPacket.length)
+		s.putQueuedPacket(queuedPacket)
 	}
 
 	uplink.logger.Info("Finished relay serverConn -> natConn",
